@@ -134,29 +134,49 @@ func runGio(c *Ctx) {
 		name := core.FuncName(d.Obj)
 		c.Walk("R15", &core.Config{Follow: samePkgFollow(d.Pkg.PkgPath)}, core.Entry{Decl: d}, func(p *core.Path) {
 			g := prepare(c, p)
+			// the count the call returns: the first result of its final return, looked through a
+			// pass-through helper (return s.account(s.wtr.Write(p)))
+			var retVar *types.Var
+			if p.End == core.EndReturn {
+				for i := len(p.Events) - 1; i >= 0 && retVar == nil; i-- {
+					ev := p.Events[i]
+					if ev.Kind != core.KReturn || ev.Frame.Parent != nil {
+						continue
+					}
+					rs, rfr := returnExprs(p, i), ev.Frame
+					for depth := 0; depth < 3 && len(rs) == 1; depth++ {
+						call, isCall := unparen(rs[0]).(*ast.CallExpr)
+						if !isCall {
+							break
+						}
+						ri, inl := g.rets[call]
+						if !inl {
+							break
+						}
+						rs, rfr = returnExprs(p, ri), p.Events[ri].Frame
+					}
+					if len(rs) == 2 {
+						retVar = identVar(rs[0], rfr)
+					}
+					break
+				}
+			}
 			added, wrapped := false, -1
 			for i, ev := range p.Events {
 				if isAtomicCall(ev, "Add") {
 					arg := core.ExprString(ev.Call.Args[0])
-					var res0 *types.Var
-					if rs := d.Decl.Type.Results; rs != nil && len(rs.List) > 0 && len(rs.List[0].Names) > 0 {
-						res0, _ = d.Pkg.TypesInfo.Defs[rs.List[0].Names[0]].(*types.Var)
-					}
 					isCount := false
-					if conv, ok := unparen(ev.Call.Args[0]).(*ast.CallExpr); ok && len(conv.Args) == 1 && res0 != nil {
-						// through helper parameters the count keeps its identity by the inlining alias
-						isCount = identVar(conv.Args[0], ev.Frame) == res0 || aliasOf(p, ev, conv.Args[0]) == res0
-					}
 					cnt := "?n"
-					if res0 != nil {
-						cnt = c.Role(res0)
-					}
 					if conv, ok := unparen(ev.Call.Args[0]).(*ast.CallExpr); ok && len(conv.Args) == 1 {
 						if v := identVar(conv.Args[0], ev.Frame); v != nil {
 							cnt = g.builderAt(i).varTerm(v, ev.Frame)
+							// through helper parameters the count keeps its identity by the inlining alias
+							isCount = retVar != nil && (v == retVar || aliasOf(p, ev, conv.Args[0]) == retVar)
 						}
 					}
-					a.note("R15", name+"/adds-returned-count", ev.Pos, !isCount, "the total grows by the count that is returned", "the total grows by "+arg+", not by the count the call returns", p)
+					if p.End == core.EndReturn {
+						a.note("R15", name+"/adds-returned-count", ev.Pos, !isCount, "the total grows by the count that is returned", "the total grows by "+arg+", not by the count the call returns", p)
+					}
 					a.requireGuard("R15", name+"/adds-positive-count", g, i, false, lt("0", cnt), "adding to the total")
 					added = true
 				}
@@ -168,10 +188,8 @@ func runGio(c *Ctx) {
 			// (whatever the error: a short read/write transfers bytes and reports an error)
 			if wrapped >= 0 && !added && p.End == core.EndReturn {
 				cnt := "?n"
-				if rs := d.Decl.Type.Results; rs != nil && len(rs.List) > 0 && len(rs.List[0].Names) > 0 {
-					if res0, _ := d.Pkg.TypesInfo.Defs[rs.List[0].Names[0]].(*types.Var); res0 != nil {
-						cnt = c.Role(res0)
-					}
+				if retVar != nil {
+					cnt = c.Role(retVar)
 				}
 				ok, _ := implies(g.litsBefore(len(p.Events), false), fnot(lt("0", cnt)))
 				if !ok {
@@ -696,7 +714,7 @@ func runGcodec(c *Ctx) {
 					continue
 				}
 				se, ok := unparen(ev.Rhs).(*ast.SliceExpr)
-				if !ok || se.High == nil || identVar(se.X, ev.Frame) != pv[0] {
+				if !ok || se.High == nil || (identVar(se.X, ev.Frame) != pv[0] && aliasOf(p, ev, se.X) != pv[0]) {
 					continue
 				}
 				// High = v + k
@@ -1198,6 +1216,7 @@ func runGqueue(c *Ctx) {
 			loadIdx, lastCas := -1, -1
 			linkIdx, nextIdx := -1, -1 // Push: newNode.next = loaded; Pop: next := loaded.next
 			nonNilIdx := -1            // Pop: the latest branch that found the loaded top non-nil
+			var linkNode *types.Var    // Push: the node whose next was assigned straight from top.Load()
 			derefChecked := func(i int, ev *core.Event) {
 				if fn != "Pop" {
 					return
@@ -1254,6 +1273,20 @@ func runGqueue(c *Ctx) {
 						}
 					}
 					if ev.Var != nil && core.FieldName(ev.Var) == "cqueue.atomicLIFONode.next" {
+						// the load may be stored straight into the (still private) node: n.next = q.top.Load()
+						if call, isCall := unparen(ev.Rhs).(*ast.CallExpr); isCall {
+							if sel, isSel := unparen(call.Fun).(*ast.SelectorExpr); isSel && sel.Sel.Name == "Load" {
+								if fv := fieldVar(sel.X, ev.Frame); fv != nil && core.FieldName(fv) == "cqueue.AtomicLIFO.top" {
+									if ls, isLs := unparen(ev.Lhs).(*ast.SelectorExpr); isLs {
+										linkNode, loadIdx, linkIdx = identVar(ls.X, ev.Frame), i, i
+										loaded = nil
+										a.note("R10", name+"/link-to-loaded-top", ev.Pos, false, "the new node is linked to the top loaded for this attempt", "", p)
+										a.note("R10", name+"/no-write-after-publish", ev.Pos, casOK, "node fields are not written after a successful CAS", "a node field is written after the node was published by a successful CAS", p)
+										continue
+									}
+								}
+							}
+						}
 						ok := loaded != nil && identVar(ev.Rhs, ev.Frame) == loaded && loadIdx > lastCas
 						if ok {
 							linkIdx = i
@@ -1270,6 +1303,12 @@ func runGqueue(c *Ctx) {
 					old := identVar(ev.Call.Args[0], ev.Frame)
 					ok := old != nil && old == loaded && loadIdx > lastCas
 					linked := linkIdx > loadIdx
+					// CompareAndSwap(n.next, n) after n.next = top.Load() in this attempt
+					if osel, isSel := unparen(ev.Call.Args[0]).(*ast.SelectorExpr); isSel && linkNode != nil && loaded == nil {
+						if fv := fieldVar(osel, ev.Frame); fv != nil && core.FieldName(fv) == "cqueue.atomicLIFONode.next" && identVar(osel.X, ev.Frame) == linkNode && loadIdx > lastCas {
+							ok, linked = true, linkIdx >= loadIdx
+						}
+					}
 					readNext := nextIdx > loadIdx
 					// … or the next pointer is read in the CAS argument itself: CompareAndSwap(oldTop, oldTop.next)
 					if sel, isSel := unparen(ev.Call.Args[1]).(*ast.SelectorExpr); isSel && sel.Sel.Name == "next" && loaded != nil && identVar(sel.X, ev.Frame) == loaded {
@@ -1382,6 +1421,26 @@ func runGqueue(c *Ctx) {
 			fromList := map[*types.Var]bool{}
 			slotOf := map[*types.Var]string{} // local pointer -> the link field it points to
 			for i, ev := range p.Events {
+				// a parameter of a helper walked in place that is handed a freshly allocated element (or a
+				// local holding one) is fresh too
+				if ev.Kind == core.KEnter && ev.Inner != nil && ev.Call != nil && ev.Inner.CS == nil {
+					if ft := ev.Inner.FuncType(); ft != nil && ft.Params != nil {
+						k := 0
+						for _, f := range ft.Params.List {
+							for _, n := range f.Names {
+								if pvv, _ := ev.Inner.Info().Defs[n].(*types.Var); pvv != nil && k < len(ev.Call.Args) {
+									arg := ev.Call.Args[k]
+									if isFreshExpr(arg, ev.Frame.Info()) {
+										freshLocal[pvv] = true
+									} else if av := identVar(arg, ev.Frame); av != nil && (freshLocal[av] || fromList[av]) {
+										freshLocal[pvv], fromList[pvv] = freshLocal[av], fromList[av]
+									}
+								}
+								k++
+							}
+						}
+					}
+				}
 				if ev.Kind != core.KAssign || ev.FieldInit {
 					continue
 				}
